@@ -1088,3 +1088,31 @@ def _runner_multi(case):
     except Exception:  # noqa
         import traceback
         return dict(harness_error=traceback.format_exc(), events=[], reads=[], timeout=False)
+
+
+def stage_events(events):
+    """all events of a multi-stream run as tokens `<stream>:<event>` (and K for stream creation is added by the caller)"""
+    toks = []
+    cur = None
+    for tag, i, pid in events:
+        if tag == 'N':
+            toks.append('%d:N' % i)
+        elif tag == 'C':
+            toks.append('%d:C' % i)
+        elif tag == 'D':
+            toks.append('%d:D' % (i // SBASE))
+        elif tag in ('S', 'F'):
+            toks.append('%d:%s%d' % (i // SBASE, tag, i % SBASE))
+        elif tag == 'M':
+            cur = i
+        elif tag in ('Y', 'y', 'R', 'E') and cur is not None:
+            if tag == 'Y':
+                toks.append('%d:Y%d' % (cur, i % SBASE))
+            elif tag == 'y':
+                toks.append('%d:Yn' % cur)
+            elif tag == 'R':
+                toks.append('%d:R%d' % (cur, i))
+            else:
+                toks.append('%d:E' % cur)
+            cur = None
+    return toks
